@@ -614,7 +614,19 @@ func (r *primaryObjectsRetriever) collectDocs(numDocs int) ([]core.Doc, error) {
 func (r *primaryObjectsRetriever) retrievePrimaryDocs() ([]core.Doc, error) {
 	r.primaryScan.addField(r.relIDFieldDef)
 
-	r.primaryScan.filter = addFilterOnIDField(r.filter, r.primarySide.relIDFieldMapIndex.Value(),
+	oldFilter := r.primaryScan.filter
+	lookupFilter := r.filter
+	if r.primarySide.isParent {
+		// The primary side is the host of the join (the direction was inverted): r.filter is the filter
+		// of the related object's sub-selection and says nothing about the host documents. Those have to
+		// pass the conditions on their own fields, which the host's scan carries.
+		lookupFilter = nil
+		if oldFilter != nil {
+			lookupFilter = mapper.NewFilter()
+			lookupFilter.Conditions = filter.Copy(oldFilter.Conditions)
+		}
+	}
+	r.primaryScan.filter = addFilterOnIDField(lookupFilter, r.primarySide.relIDFieldMapIndex.Value(),
 		r.targetSecondaryDoc.GetID())
 
 	oldFetcher := r.primaryScan.fetcher
@@ -632,6 +644,9 @@ func (r *primaryObjectsRetriever) retrievePrimaryDocs() ([]core.Doc, error) {
 
 	r.primaryScan.fetcher = oldFetcher
 	r.primaryScan.index = oldIndex
+	if r.primarySide.isParent {
+		r.primaryScan.filter = oldFilter
+	}
 
 	if err != nil {
 		return nil, errors.Join(err, closeErr)
